@@ -34,6 +34,26 @@ theorem header_rejects_align (th ah sah : Nat) (name rest : B)
         (by decide) (by decide) (by decide) (by decide) hth hsah hu hl,
       C10.err_alignHash th ah versionMinor sah (Nat.le_refl _) h]
 
+/-- The same for every header the reader accepts at all: whatever minor version `mn ≤ versionMinor` the stream
+    announces, a differing type-hash word is the type-hash error and (the type hashes being equal) a differing
+    alignment-hash word is the alignment-hash error. No accepted version is checked less strictly. -/
+theorem header_rejects_any_accepted_minor (th ah mn sth sah : Nat) (name rest : B)
+    (hmn : mn ≤ versionMinor) (hsth : sth < 2^64) (hsah : sah < 2^64)
+    (hu : validUtf8 name = true) (hl : name.length < 2^63) :
+    (sth ≠ th → checkHeader th ah (C10.fixedHdr magic versionMajor mn usizeSize sth sah ++ (leBytes 8 name.length ++ name) ++ rest) 0
+        = .err (.wrongTypeHash sth)) ∧
+    (sth = th → sah ≠ ah → checkHeader th ah (C10.fixedHdr magic versionMajor mn usizeSize sth sah ++ (leBytes 8 name.length ++ name) ++ rest) 0
+        = .err (.wrongAlignHash sah)) := by
+  have hmn' : mn < 2^16 := by simp [versionMinor] at hmn; omega
+  constructor
+  · intro h
+    rw [C10.checkHeader_decision th ah magic versionMajor mn usizeSize sth sah name rest
+          (by decide) (by decide) hmn' (by decide) hsth hsah hu hl, C10.err_typeHash th ah mn sth sah hmn h]
+  · intro e h
+    subst e
+    rw [C10.checkHeader_decision sth ah magic versionMajor mn usizeSize sth sah name rest
+          (by decide) (by decide) hmn' (by decide) hsth hsah hu hl, C10.err_alignHash sth ah mn sah hmn h]
+
 /-- Bytes serialized as `T`, read as `U`, in either mode: if the digests of the type feeds differ
     the result is the type-hash error, never a value. -/
 theorem cross_type_rejected (H : B → Nat) (hH : ∀ b, H b < 2^64) (T U : Ty) (name : B) (v : Val) (base : Nat)
